@@ -118,6 +118,10 @@ def gen_one(r, i, tier):
     ops.append(("add", t, b)); s1 = pool[0]; pool[0] += 1; i1 = len(ops) - 1
     ops.append(("add", cl, b)); s2 = pool[0]; pool[0] += 1; i2 = len(ops) - 1
     pairs.append((i1, i2, "+ with a third aggregator"))
+    # scaling: the clone's Counts hold an equal copy of the identity transform, not the object itself
+    ops.append(("mul", t, 2.0)); pool[0] += 1; i1 = len(ops) - 1
+    ops.append(("mul", cl, 2.0)); pool[0] += 1; i2 = len(ops) - 1
+    pairs.append((i1, i2, "* 2"))
     ops.append(("add", t, cl)); pool[0] += 1; mixed = len(ops) - 1
     ops.append(("clone", cl)); cl2 = pool[0]; pool[0] += 1
     ops.append(("eq", cl, cl2, TOL)); eq2 = len(ops) - 1
